@@ -99,7 +99,7 @@ Recv ==
 
 (* OSError(EINTR) from sock.recv: `while True: try: return sock.recv(size) except OSError as e: if e.errno != EINTR: raise` *)
 Eintr ==
-  /\ pc \in {"rl_recv", "rv_recv", "rs_recv"} /\ eintr < 1
+  /\ pc \in {"rl_recv", "rv_recv", "rs_recv"} /\ eintr < 2        \* also two interrupts in a row
   /\ eintr' = eintr + 1
   /\ UNCHANGED <<stream, plan, rem, todo, buf, acc, lastc, rlen, pc, results>>
 
